@@ -162,3 +162,14 @@ Theorem C03_language_every_accepted_value : forall w, no_LF w -> rmatch gen_acce
                  parse_accept_language w = Some (map (fun ej => canon (fst ej)) els).
 Proof. exact language_accepted_elements. Qed.
 Print Assumptions C03_language_every_accepted_value.
+
+(* ... and for Accept itself: every accepted value is a rendering of media ranges with parameters (token or
+   quoted-string values, commas allowed inside quotes), weight and extension parameters, and parse returns exactly
+   those elements with unquoted values *)
+Require Import Webob.Proofs.C03_accept_complete.
+
+Theorem C03_accept_every_accepted_value : forall w, no_LF w -> rmatch gen_accept w = true ->
+  exists j0 els, all_junk j0 /\ rels_ok els /\ w = arender j0 els /\
+                 parse_accept w = Some (map (fun ej => canon_rel (fst ej)) els).
+Proof. exact accept_accepted_elements. Qed.
+Print Assumptions C03_accept_every_accepted_value.
